@@ -27,6 +27,9 @@ impl Prop for C02 {
         let mut v = required_ad_classes();
         for m in ["__add__", "__radd__", "__sub__", "__rsub__", "__mul__", "__rmul__", "__truediv__", "__rtruediv__", "__pow__", "__neg__", "__abs__", "__exp__", "__log__", "__norm_cdf__", "__norm_inv_cdf__"] {
             v.push(format!("py:Dual2:{}", m));
+            if !m.starts_with("__pow") && !["__neg__", "__abs__", "__exp__", "__log__", "__norm_cdf__", "__norm_inv_cdf__"].contains(&m) {
+                v.push(format!("py:Dual2:{}:float-zero", m));
+            }
         }
         for s in ["route:Number-with-bare-floats", "route:Number-with-wrapped-floats", "gradient2:fast-path", "gradient2:lookup-path", "gradient2:absent-name", "downcast:Dual-from-Dual2", "cross-type:Dual-vs-Dual2", "leaf:nonzero-initial-dual2"] {
             v.push(s.to_string());
